@@ -10,12 +10,16 @@ import (
 	"io"
 	"net/http"
 	"os"
+	"os/exec"
+	"os/signal"
 	"path/filepath"
 	"sort"
 	"strings"
+	"syscall"
 	"testing"
 	"time"
 
+	"github.com/bluenviron/mediamtx/internal/verifhook"
 	"verif.local/vmon"
 )
 
@@ -45,7 +49,38 @@ func c27Payloads(parts []vPart) map[uint32][]string {
 	return out
 }
 
+// c27FaultSpec is the recording used by the write-fault scenario (one long segment).
+var c27FaultSpec = vRecSpec{PathName: "cam", Video: true, Audio: true, GOP: 5, FPS: 25, Frames: 40, SegmentDuration: 20 * time.Second, PartDuration: 200 * time.Millisecond,
+	StartNTP: time.Date(2024, 3, 1, 10, 0, 0, 0, time.UTC)}
+
+// c27FaultChild records with a file size limit that cuts one part write half-way (EFBIG after a partial write); the
+// limit is lifted as soon as the recorder has seen the error (hook), so that whatever it writes while closing succeeds.
+func c27FaultChild(t *testing.T) {
+	var limit uint64
+	fmt.Sscan(os.Getenv("VERIF_CHILD_LIMIT"), &limit)
+	signal.Ignore(syscall.SIGXFSZ)
+	var orig syscall.Rlimit
+	syscall.Getrlimit(syscall.RLIMIT_FSIZE, &orig) //nolint:errcheck
+	lim := orig
+	lim.Cur = limit
+	if err := syscall.Setrlimit(syscall.RLIMIT_FSIZE, &lim); err != nil {
+		fmt.Fprintln(os.Stderr, "child: setrlimit:", err)
+		os.Exit(3)
+	}
+	verifhook.SetPoint(func(name string) {
+		if name == "recorder.instance.afterError" {
+			syscall.Setrlimit(syscall.RLIMIT_FSIZE, &orig) //nolint:errcheck
+			fmt.Fprintln(os.Stderr, "child: write error seen by the recorder, limit lifted")
+		}
+	})
+	vRecord(t, filepath.Join(os.Getenv("VERIF_CHILD_DIR"), "rec/%path/%Y-%m-%d_%H-%M-%S-%f"), c27FaultSpec)
+}
+
 func TestVerifC27(t *testing.T) {
+	if os.Getenv("VERIF_CHILD") == "rec" {
+		c27FaultChild(t)
+		return
+	}
 	if os.Getenv("VERIF_CHILD") != "" {
 		vChildMain(t)
 		return
@@ -375,8 +410,55 @@ func TestVerifC27(t *testing.T) {
 			os.WriteFile(closed, F, 0o644) //nolint:errcheck
 		}
 	}
+	// ---- a write that fails half-way while the process keeps running (file size limit): the segment must still be
+	// header + complete parts + at most one incomplete tail
+	{
+		fdir := t.TempDir()
+		dry := vRecord(t, filepath.Join(fdir, "dry/%path/%Y-%m-%d_%H-%M-%S-%f"), c27FaultSpec)
+		db, _ := os.ReadFile(dry.Segments[0])
+		ds, derr := vParseSegment(db)
+		nf := r.N(6, 60)
+		for k := 0; derr == nil && k < nf && len(ds.Parts) > 3; k++ {
+			pi := 1 + rng.IntN(len(ds.Parts)-2)
+			part := ds.Parts[pi]
+			limit := part.Off + 1 + rng.IntN(part.End-part.Off-1)
+			cdir := filepath.Join(fdir, fmt.Sprintf("f%d", k))
+			os.MkdirAll(cdir, 0o755) //nolint:errcheck
+			cmd := exec.Command(os.Args[0], "-test.run=^TestVerifC27$", "-test.timeout=60s")
+			cmd.Env = append(os.Environ(), "VERIF_CHILD=rec", "VERIF_CHILD_DIR="+cdir, fmt.Sprintf("VERIF_CHILD_LIMIT=%d", limit), "VERIF_EVIDENCE=")
+			out, _ := cmd.CombinedOutput()
+			files, _ := filepath.Glob(filepath.Join(cdir, "rec/cam/*.mp4"))
+			r.Eval(fmt.Sprintf("write-fault|part %d|limit %d", pi, limit))
+			if !strings.Contains(string(out), "limit lifted") || len(files) == 0 {
+				r.Count("write_fault_runs_without_fault", 1)
+				continue
+			}
+			sort.Strings(files)
+			fb, _ := os.ReadFile(files[0])
+			fs, ferr := vParseSegment(fb)
+			if ferr != nil {
+				r.Violation("segment-after-write-error-unparseable", fmt.Sprintf("a part write cut at byte %d by a file size limit: the segment cannot be walked: %v", limit, ferr), nil)
+				continue
+			}
+			// after the incomplete tail nothing that looks like a further complete part may follow
+			for off := fs.TailOff + 1; off+16 <= len(fb); off++ {
+				if string(fb[off+4:off+8]) != "moof" {
+					continue
+				}
+				sz := int(binary.BigEndian.Uint32(fb[off:]))
+				if sz >= 16 && off+sz+8 <= len(fb) && string(fb[off+sz+4:off+sz+8]) == "mdat" {
+					msz := int(binary.BigEndian.Uint32(fb[off+sz:]))
+					if msz >= 8 && off+sz+msz <= len(fb) {
+						r.Violation("complete-part-after-incomplete-part", fmt.Sprintf("a write of part %d was cut at byte %d by a file size limit (partial write, then an error) and the recorder was closed: the segment holds %d complete parts, an incomplete part at byte %d and then another complete part at byte %d (of %d): not 'complete parts and at most one incomplete tail'; playback takes the torn part for a complete one", pi, limit, len(fs.Parts), fs.TailOff, off, len(fb)), nil)
+						break
+					}
+				}
+			}
+			r.Count("write_fault_runs", 1)
+		}
+	}
 	r.Count("crash_images", int64(images))
-	r.Finish("recordings made by the real recorder (video+audio, audio only, video only; several part / segment durations; one or several segments). The newest segment is copied at a quiescent point before it is closed (= disk content at a crash: init + complete parts, duration not yet written; checked: no partial write, no duration). Crash images of it: truncated at byte L, zero-filled to the full length, zero-filled to the next 4 KiB block, for L = every box boundary with neighbours (quick: sampled; thorough: every byte offset), plus the five torn states of the final duration patch. For each image the real playback server (child process) answers /list and /get over HTTP. Oracle from the harness' own box walker over the untorn file: the server survives; /list succeeds and ends exactly at the end of the last complete part (earlier segments included); /get returns the samples of all complete parts byte-identically (at most the last part missing). Closed segments: header duration == media end, first video sample is a random-access sample, consecutive segments share the stream id with consecutive numbers and are listed as one span. non-trivial = distinct (recording, image kind, position class)",
+	r.Finish("recordings made by the real recorder (video+audio, audio only, video only; several part / segment durations; one or several segments). The newest segment is copied at a quiescent point before it is closed (= disk content at a crash: init + complete parts, duration not yet written; checked: no partial write, no duration). Crash images of it: truncated at byte L, zero-filled to the full length, zero-filled to the next 4 KiB block, for L = every box boundary with neighbours (quick: sampled; thorough: every byte offset), plus the five torn states of the final duration patch; plus write faults the process survives: child processes record under a file size limit that cuts one part write half-way (the limit is lifted from a hook once the recorder has seen the error), and the resulting segment must still be header + complete parts + at most one incomplete tail. For each image the real playback server (child process) answers /list and /get over HTTP. Oracle from the harness' own box walker over the untorn file: the server survives; /list succeeds and ends exactly at the end of the last complete part (earlier segments included); /get returns the samples of all complete parts byte-identically (at most the last part missing). Closed segments: header duration == media end, first video sample is a random-access sample, consecutive segments share the stream id with consecutive numbers and are listed as one span. non-trivial = distinct (recording, image kind, position class)",
 		"write granularity: the recorder issues one write per init / part (read in format_fmp4_segment.go / format_fmp4_part.go), so every crash state is a prefix of the open image, possibly zero-extended by the file system")
 }
 
